@@ -10,7 +10,7 @@ from harness.common import Report, proof_gate, report_failure
 GLYPHS = [".notdef", "space", "base0", "base1", "base2", "sq", "tri", "bar", "comp"]
 
 
-def build_font(colr_glyphs, palettes, upem=1000, asc=800, desc=-200, version=1):
+def build_font(colr_glyphs, palettes, upem=1000, asc=800, desc=-200, version=1, advances=None):
     from fontTools.colorLib.builder import buildCOLR, buildCPAL
     from fontTools.fontBuilder import FontBuilder
     from fontTools.pens.ttGlyphPen import TTGlyphPen
@@ -37,7 +37,7 @@ def build_font(colr_glyphs, palettes, upem=1000, asc=800, desc=-200, version=1):
     pen.addComponent("tri", (0.5, 0, 0, 0.5, 0, 0))
     glyphs["comp"] = pen.glyph()
     fb.setupGlyf(glyphs)
-    fb.setupHorizontalMetrics({g: (1000 if g.startswith("base") else 600, 0) for g in GLYPHS})
+    fb.setupHorizontalMetrics({g: ((advances or {}).get(g, 1000 if g.startswith("base") else 600), 0) for g in GLYPHS})
     fb.setupHorizontalHeader(ascent=asc, descent=desc)
     fb.setupNameTable({"familyName": "C13", "styleName": "Regular"})
     fb.setupOS2(sTypoAscender=asc, sTypoDescender=desc)
@@ -152,12 +152,24 @@ def run_v1(report, n, rng):
                 dict(Format=F.PaintTransform, Transform=(0.866, 0.5, -0.5, 0.866, 40, -30), Paint=dict(Format=F.PaintGlyph, Glyph="bar", Paint=fg(0.25)))])
             graphs["base1"] = dict(Format=F.PaintGlyph, Glyph="sq", Paint=dict(Format=F.PaintLinearGradient, x0=100, y0=100, x1=400, y1=150, x2=60, y2=380, ColorLine=dict(
                 Extend="pad", ColorStop=[dict(StopOffset=0.0, PaletteIndex=0xFFFF, Alpha=1.0), dict(StopOffset=1.0, PaletteIndex=0xFFFF, Alpha=0.25)])))
+        if i == 1:
+            # directed: two colour glyphs that use one and the same gradient (each SVG must define it)
+            from fontTools.ttLib.tables import otTables as ot
+
+            F = ot.PaintFormat
+            grad = dict(Format=F.PaintLinearGradient, x0=100, y0=100, x1=400, y1=100, x2=100, y2=400, ColorLine=dict(
+                Extend="pad", ColorStop=[dict(StopOffset=0.0, PaletteIndex=1, Alpha=1.0), dict(StopOffset=1.0, PaletteIndex=3, Alpha=1.0)]))
+            graphs["base0"] = dict(Format=F.PaintGlyph, Glyph="sq", Paint=grad)
+            graphs["base1"] = dict(Format=F.PaintColrLayers, Layers=[dict(Format=F.PaintGlyph, Glyph="tri", Paint=dict(Format=F.PaintSolid, PaletteIndex=2, Alpha=1.0)),
+                                                                       dict(Format=F.PaintGlyph, Glyph="sq", Paint=grad)])
         asc, desc = rng.choice([(800, -200), (950, -250), (1000, 0)])
         try:
             font = build_font(graphs, palettes, asc=asc, desc=desc)
         except Exception as ex:
             continue  # the generator produced something colorLib refuses (harness limitation)
         vbs = {g: rng.choice([Rect(0, 0, 1000, asc - desc), Rect(0, 0, 128, 128), Rect(10, -20, 200, 100)]) for g in graphs}
+        if i == 1:
+            vbs = {g: Rect(0, 0, 128, 128) for g in graphs}  # one viewBox: the shared gradient is the same in every document
         case = dict(kind="e2e", palettes=npal, view_boxes={g: list(v) for g, v in vbs.items()}, graphs={g: repr(p)[:1500] for g, p in graphs.items()})
         try:
             svgs = colr_to_svg.colr_to_svg(lambda g: vbs[g], font)
@@ -212,6 +224,54 @@ def run_v0(report, n, rng):
         if probs:
             report_failure(report, f"v0_{i}", dict(kind="e2e", layers=layers, problems=probs[:4], svg=svgs["base0"].tostring()[:2000]))
             return
+
+
+def run_module(report, rng):
+    """the build step `python -m nanoemoji.generate_svgs_from_colr` (used by maximum_color): one SVG per colour
+    glyph, named by glyph id, whose viewBox is the glyph's own region (0, -ascender, advance, ascender - descender)"""
+    import subprocess
+
+    from fontTools.ttLib.tables import otTables as ot
+
+    from harness import build
+    from harness.common import scratch_dir
+
+    F = ot.PaintFormat
+    pal = [(0, 0, 0, 1.0), (1, 0, 0, 1.0), (0, 0.5, 0, 1.0), (0, 0, 1, 1.0)]
+    gl = lambda g, i: dict(Format=F.PaintGlyph, Glyph=g, Paint=dict(Format=F.PaintSolid, PaletteIndex=i, Alpha=1.0))
+    graphs = {"base0": gl("sq", 1), "base1": dict(Format=F.PaintColrLayers, Layers=[gl("bar", 2), gl("tri", 3)]), "base2": gl("tri", 1)}
+    adv = {"base0": 400, "base1": 1400, "base2": 1000, ".notdef": 600}
+    asc, desc = 800, -200
+    font = build_font(graphs, [pal], asc=asc, desc=desc, advances=adv)
+    with scratch_dir("verif-c13m-") as d:
+        font.save(str(d / "in.ttf"))
+        (d / "out").mkdir()
+        p = subprocess.run(["/venv/bin/python", "-m", "nanoemoji.generate_svgs_from_colr", "--output_dir", str(d / "out"), str(d / "in.ttf")], env=build.cli_env(), capture_output=True, text=True)
+        case = dict(kind="e2e", tool="python -m nanoemoji.generate_svgs_from_colr", advances=adv)
+        if p.returncode != 0:
+            report_failure(report, "module_failed", dict(case, log=(p.stdout + p.stderr)[-1200:]))
+            return
+        for g in ("base0", "base1", "base2"):
+            gid = font.getGlyphID(g)
+            f = d / "out" / f"{gid:05d}.svg"
+            report.count(("module", g), True)
+            if not f.is_file():
+                report_failure(report, f"module_{g}", dict(case, glyph=g, problems=[f"no file {f.name} for glyph id {gid}"]))
+                return
+            text = f.read_text()
+            from lxml import etree
+
+            vb = tuple(float(v) for v in etree.fromstring(text.encode()).get("viewBox").replace(",", " ").split())
+            want = (0.0, float(-asc), float(adv[g]), float(asc - desc))
+            probs = []
+            if vb != want:
+                probs.append(f"viewBox {vb} != the glyph's region {want}")
+            exp, p1 = picture.colr_picture(font, g)
+            act, p2 = picture.otsvg_picture(text, 0, whole_document_to_font=svg_to_font(vb, asc, desc, adv[g]))
+            probs += p1 + p2 + picture.compare_pictures(exp, act, eps=1.0, palette_check=False)
+            if probs:
+                report_failure(report, f"module_{g}", dict(case, glyph=g, problems=probs[:4], svg=text[:1500]))
+                return
 
 
 def run_unsupported(report):
@@ -280,6 +340,8 @@ def main(argv):
     rng = random.Random(report.seed)
     run_v1(report, 40 if tier == "quick" else 1000, rng)
     run_v0(report, 15 if tier == "quick" else 300, rng)
+    if not report.violations:
+        run_module(report, rng)
     run_unsupported(report)
     if not st["proof_ok"] and not report.violations:
         report.violation("proof", dict(kind="proof", theorem="Props/C13.v", detail=report.notes.get("proof_failure")), found_input=False)
